@@ -10,6 +10,8 @@ from ..core import Op
 from ..rat import rat, frac
 from .. import evalgen as G
 from .. import leanio
+from .. import symtrace as st
+from ..symtrace import Sym
 
 PROPERTY = "C08"
 LEAN_MODULE = "Proofs.C08"
@@ -17,34 +19,197 @@ _T = "SE.Proofs.C08."
 THEOREMS = [_T + n for n in [
     "C08_clips", "C08_clips_pairs", "C08_cover", "C08_index_faithful", "C08_index_faithful_annotations",
     "C08_pairs_overlap_report_affinity_score", "C08_unpaired_zero", "C08_geometryless_unpaired",
-    "C08_matcher_contract_checked", "C08_contract_from_C07", "C08_holds_cover_sound", "C08_holds_cover_model", "C08_clip_score_is_mean", "C08_means", "C08_scores_in_range", "C08_empty"]]
+    "C08_matcher_contract_checked", "C08_contract_from_C07", "C08_holds_cover_sound", "C08_holds_cover_model", "C08_clip_score_is_mean", "C08_means", "C08_scores_in_range", "C08_empty",
+    # geometry layer (review): the matcher inside the model, overlap decided by end-point comparisons
+    "C08_overlap_iff_affinity_pos", "C08_overlap_symm_total", "C08_geo_matcher_contract", "C08_geo_pairs_overlap",
+    "C08_judge_sound", "C08_judge_model", "C08_geo_detection"]]
 LEVEL_TEXT = ("Lean theorems over the model of evaluate_clip / sound_event_detection hold for all inputs: evaluated clips = "
-              "predictions whose clip id is annotated, in order; under the matcher's cover contract every annotated and "
-              "predicted sound event (with or without geometry) is in exactly one match; the filtered->original index map is "
-              "the order-preserving injection; a pair has positive affinity, reports the matcher's affinity and the "
-              "probability of the annotation's class; unpaired events get affinity 0 and score 0; clip and overall scores are "
-              "means. The model is run differentially against sound_event_detection, evaluate_clip and "
-              "iterate_over_valid_clips; the contract is evaluated on every answer of the real matcher.")
-LEVEL_NOTE = ("Trusted: Lean kernel; match_geometries (C07) and compute_affinity (C06) are parameters whose cover contract "
-              "(MatcherCover) is a hypothesis of the theorems and is checked at run time on what the real matcher returned; "
-              "'geometries overlap' is read as 'the matcher reports affinity > 0'. Unmodelled: binary64 rounding of the means "
-              "(dyadic scores: clip score is one correctly rounded division; overall score within 2^-40); scikit-learn behind "
-              "the run-level metrics (C09). Model tied to the code by generator-bounded correspondence (no table or "
-              "straight-line kernel in this property).")
-TECHNIQUE = ("Lean 4 proof over model with the matcher as a parameter under a monitored contract; end-to-end and per-clip "
-             "differential correspondence, exhaustive small scopes; executable property monitor on the real results")
+              "predictions whose clip id is annotated, in order; every annotated and predicted sound event (with or without "
+              "geometry) is in exactly one match; the filtered->original index map is the order-preserving injection; a pair "
+              "reports the geometric affinity and the probability of the annotation's class; unpaired events get affinity 0 "
+              "and score 0; clip and overall scores are means. Two layers: (1) the matcher's answer as a parameter under the "
+              "cover contract; (2) the matcher inside the model (closed-form compute_affinity for time stamps, intervals and "
+              "boxes + _select_matches around the assignment solver's pairs), where the cover contract is a theorem and "
+              "'paired only if the geometries overlap' is proved with overlap defined by end-point comparisons "
+              "(C08_overlap_iff_affinity_pos, C08_geo_pairs_overlap). The same comparison, evaluated in Lean "
+              "(judgePairs, C08_judge_sound) on the matches sound_event_detection really returned, judges every reported "
+              "pair. Ties: the matcher's default buffers (table), symbolic traces of compute_affinity on two boxes, of "
+              "compute_affinity_in_time and of evaluate_sound_event's score/affinity (all inputs), differential runs of "
+              "sound_event_detection, evaluate_clip and iterate_over_valid_clips against both layers.")
+LEVEL_NOTE = ("Trusted: Lean kernel; scipy's assignment (only its pairs enter the model; contract ValidAssignment evaluated "
+              "on every answer; which overlapping pairs are chosen is C07's optimality, not pinned here); GEOS on "
+              "rectangles (contract BoxExact, embodied in the trace stub); for geometry types without closed form "
+              "(points, lines, polygons) the affinity is a monitored measurement with shapely, not a model value. "
+              "Unmodelled: binary64 rounding of the means (dyadic scores: clip score is one correctly rounded division; "
+              "overall score within 2^-40) and of the affinity (compared within 2^-40); scikit-learn behind the run-level "
+              "metrics (C09). evaluate_clip's loop itself is tied by generator-bounded correspondence.")
+TECHNIQUE = ("Lean 4 proof over a two-layer model (matcher as parameter under a proved-sufficient contract; matcher inside "
+             "the model around the solver's pairs); table and symbolic-trace obligations regenerated from the source; "
+             "end-to-end and per-clip differential correspondence, exhaustive small scopes; Lean-side judge of every "
+             "reported pair by closed-form overlap; executable property monitor on the real results")
 RULE = ("sound_event_detection end to end (0-4 evaluated clips, 0-4 annotated and predicted events per clip, geometry "
-        "present/absent, boxes on a grid identical / overlapping / touching / disjoint / far apart, vocabularies of 1-6 tags, "
+        "present/absent, boxes on a grid identical / overlapping / touching / disjoint along one or both axes / far apart, "
+        "time intervals, time stamps, points, lines and polygons on the same grid, vocabularies of 1-6 tags, "
         "dyadic or one-hot non-dyadic scores with sum <= 1), evaluate_clip on exhaustive small clips, clip pairing on all "
         "small id lists; non-trivial = a result with at least one match; distinct = distinct (operation, input)")
-TRUSTED = ["match_geometries / compute_affinity (properties C07 / C06): contract MatcherCover evaluated on every answer",
-           "shapely/GEOS areas behind the affinity (only the reported number is used)",
+TRUSTED = ["scipy.optimize.linear_sum_assignment behind match_geometries: contracts MatcherCover and ValidAssignment evaluated on every answer",
+           "shapely/GEOS: exact on rectangles (trace stub); measured directly for points, lines and polygons (monitored contract)",
            "harness: resolves a tag to the encoder's answer by position in the vocabulary (C19 covers the encoder)"]
 ASSUMPTIONS = ["clip ids pairwise distinct within the prediction list and within the annotation list",
                "binary64 sums of the generated scores are exact (dyadic grids, or one non-dyadic float32 score per event)",
                "the predicted scores of one sound event over the vocabulary sum to at most 1"]
 NOT_COMPARED = ["run-level metrics and per-match metric lists (property C09)", "order of the matches within a clip",
                 "error messages, uuids"]
+
+
+# ---------------------------------------------------------------- geometry layer
+CLOSED = {"BoundingBox", "TimeInterval", "TimeStamp"}           # prepared shape is an interval or a rectangle
+_TIME = {"TimeInterval", "TimeStamp"}
+_BUFFERED = {"TimeStamp", "Point", "MultiPoint", "LineString", "MultiLineString"}
+_DEFAULT_BUFFERS = (0.01, 100.0)
+_MEASURED = {}
+
+
+def _gtype(g):
+    return g["type"] if isinstance(g, dict) else "BoundingBox"
+
+
+def matcher_buffers():
+    """the buffers `evaluate_clip` matches with: the defaults in the matcher's signature"""
+    import inspect
+    ps = inspect.signature(G._matcher()).parameters
+    out = []
+    for n in ("time_buffer", "freq_buffer"):
+        p = ps.get(n)
+        if p is None or isinstance(p.default, bool) or not isinstance(p.default, (int, float)):
+            raise AttributeError(f"the matcher has no numeric default for `{n}`")
+        out.append(float(p.default))
+    return tuple(out)
+
+
+def _buffers():
+    try:
+        return matcher_buffers()
+    except Exception:  # noqa: BLE001 - reported once by the table obligation
+        return _DEFAULT_BUFFERS
+
+
+def _prepared(g, tb, fb):
+    """(type, shapely shape) of a geometry as the affinity computation prepares it — without affinity.py"""
+    from soundevent.geometry import buffer_geometry, geometry_to_shapely
+    obj = G._geometry(g)
+    if _gtype(g) in _BUFFERED:
+        obj = buffer_geometry(obj, time_buffer=tb, freq_buffer=fb)
+    return obj.type, geometry_to_shapely(obj)
+
+
+def measured_affinity(g1, g2, tb, fb):
+    """monitored contract for geometry types without closed form: intersection over union of the prepared
+    shapes measured with shapely directly (time extents when one side is time-only), as an exact rational of
+    the measured floats"""
+    key = (G.gkey(g1), G.gkey(g2), tb, fb)
+    if key in _MEASURED:
+        return _MEASURED[key]
+    t1, s1 = _prepared(g1, tb, fb)
+    t2, s2 = _prepared(g2, tb, fb)
+    F = Fraction
+    if t1 in _TIME or t2 in _TIME:
+        a0, _, a1, _ = (F(float(v)) for v in s1.bounds)
+        b0, _, b1, _ = (F(float(v)) for v in s2.bounds)
+        i = max(F(0), min(a1, b1) - max(a0, b0))
+        u = (a1 - a0) + (b1 - b0) - i
+        v = F(0) if u == 0 else i / u
+    else:
+        i, a, b = F(float(s1.intersection(s2).area)), F(float(s1.area)), F(float(s2.area))
+        u = a + b - i
+        v = F(0) if u == 0 else min(i / u, F(1))
+    if len(_MEASURED) > 20000:
+        _MEASURED.clear()
+    _MEASURED[key] = v
+    return v
+
+
+def _both_closed(g1, g2):
+    return _gtype(g1) in CLOSED and _gtype(g2) in CLOSED
+
+
+def _to_model_geo(inp):
+    """request of `detection_geo`: geometries, the pairs the real matcher chose (the assignment solver's
+    freedom), measured affinities for pairs without closed form"""
+    vocab = inp["vocab"]
+    tb, fb = _buffers()
+    ann_by = {}
+    for c in inp["annotations"]:
+        ann_by[c["clip"]] = c
+
+    def ev(e, pred):
+        tags = [[G.enc(vocab, t), G.f32(s)] for t, s in e["tags"]] if pred else [G.enc(vocab, t) for t in e["tags"]]
+        return {"id": e["id"], "geom": G.geom_json(e["geom"]), "tags": tags}
+    preds = []
+    for c in inp["predictions"]:
+        evs = c.get("events", [])
+        pc = {"clip": c["clip"], "events": [ev(e, True) for e in evs]}
+        a = ann_by.get(c["clip"])
+        if a is not None:
+            aevs = a.get("events", [])
+            pc["pairs"] = [[s, t] for s, t, _ in G.matcher_answer(evs, aevs) if s is not None and t is not None]
+            sg = [e["geom"] for e in evs if e["geom"] is not None]
+            tg = [e["geom"] for e in aevs if e["geom"] is not None]
+            pc["measured"] = [["0" if _both_closed(g1, g2) else rat(measured_affinity(g1, g2, tb, fb)) for g2 in tg]
+                              for g1 in sg]
+        preds.append(pc)
+    anns = [{"clip": c["clip"], "events": [ev(e, False) for e in c.get("events", [])]} for c in inp["annotations"]]
+    return {"C": len(vocab), "tb": rat(tb), "fb": rat(fb), "predictions": preds, "annotations": anns}
+
+
+def _compare_geo(inp, io, mo):
+    if "raise" in io or "raise" in mo:
+        a = {k: v for k, v in io.items() if k != "trace"}
+        return None if a == mo else f"implementation {a} but model {mo}"
+    return G.evaluation_diff(io["val"], mo["val"], score_mode="tolerance", clip_score_mode="round-once", metrics=False,
+                             affinity_mode="tolerance",
+                             affinity_what="the geometric affinity (intersection over union) of the paired sound events")
+
+
+def _judge_clip(ctx, clip, pe, ae, matches):
+    """'a prediction is paired with an annotation only if their geometries overlap', decided without the
+    library's affinity: end-point comparisons in Lean (C08_judge_sound) where a closed form exists, a direct
+    shapely measurement otherwise; then the reported affinity against the closed form"""
+    two = [(x["src"], x["tgt"]) for x in matches if x["src"] is not None and x["tgt"] is not None]
+    if not two:
+        return None
+    tb, fb = _buffers()
+    out = ctx.model("judge_pairs", {"tb": rat(tb), "pred_geoms": [G.geom_json(e["geom"]) for e in pe],
+                                     "ann_geoms": [G.geom_json(e["geom"]) for e in ae],
+                                     "matches": [[x["src"], x["tgt"]] for x in matches]})
+    verdict = {(i, j): v for i, j, v in out["pairs"]}
+    for x in matches:
+        i, j = x["src"], x["tgt"]
+        if i is None or j is None:
+            continue
+        v = verdict.get((i, j), "no-geometry")
+        if v == "no-geometry":
+            return f"a sound event without geometry is paired (clip {clip} match {(i, j)})"
+        g1, g2 = pe[i]["geom"], ae[j]["geom"]
+        if v == "disjoint":
+            return (f"paired sound events do not overlap: {_gtype(g1)} {g1 if not isinstance(g1, dict) else g1['coordinates']} and "
+                    f"{_gtype(g2)} {g2 if not isinstance(g2, dict) else g2['coordinates']} share no time-frequency region "
+                    f"(clip {clip} match {(i, j)}, reported affinity {G._fl(x['affinity'])})")
+        if v == "overlap":
+            want = frac(ctx.model("affinity_cf", {"tb": rat(tb), "fb": rat(fb), "g1": G.geom_json(g1),
+                                                  "g2": G.geom_json(g2)})["affinity"])
+        else:   # no closed form: the monitored contract
+            want = measured_affinity(g1, g2, tb, fb)
+            ctx.tally("contract:measured-overlap")
+            if not want > 0:
+                return (f"paired sound events do not overlap: the prepared shapes of {_gtype(g1)} and {_gtype(g2)} have an "
+                        f"empty intersection (clip {clip} match {(i, j)})")
+        if not G.num_eq(x["affinity"], rat(want), "tolerance"):
+            return (f"match affinity is not the geometric affinity of the pair: {G._fl(x['affinity'])} instead of "
+                    f"{float(want)} (clip {clip} match {(i, j)})")
+    if not out["ok"]:
+        return f"paired sound events do not overlap (clip {clip})"
+    return None
 
 
 # ---------------------------------------------------------------- detection end to end
@@ -122,6 +287,14 @@ def _holds_detection_inner(ctx, inp, io):
                                          "m": sum(1 for e in ae if e["geom"] is not None), "matcher": m})
         ctx.contract("MatcherCover", ok, inp, m, "match_geometries does not cover its inputs exactly once "
                                                  "with affinities in [0,1] (0 on one-sided entries)")
+        # the only part of the matcher that stays a parameter of the geometry layer: the solver's pairs
+        ng, mg = sum(1 for e in pe if e["geom"] is not None), sum(1 for e in ae if e["geom"] is not None)
+        pairs = [[s, t] for s, t, _ in m if s is not None and t is not None]
+        ctx.contract("ValidAssignment", ctx.model("valid_assignment", {"n": ng, "m": mg, "pairs": pairs}), inp, pairs,
+                     "the pairs chosen by the matcher are not a partial injection of the source into the target positions")
+        msg = _judge_clip(ctx, c["clip"], pe, ae, c["matches"])
+        if msg:
+            return msg
         # "every annotated and every predicted sound event appears in exactly one match", through the
         # Lean-side statement whose meaning is fixed by C08_holds_cover_sound
         if not ctx.model("holds_cover", {"n_pred": len(pe), "n_ann": len(ae),
@@ -229,6 +402,13 @@ def _compare_eval_clip(inp, io, mo):
 def _holds_eval_clip(ctx, inp, io):
     if "raise" in io:
         return f"evaluate_clip raised ({io['raise']})"
+    try:
+        if isinstance(io["val"]["entries"], list):
+            return _judge_clip(ctx, 0, inp["preds"], inp["anns"], io["val"]["entries"])
+    except leanio.InfraError:
+        raise
+    except Exception as e:  # noqa: BLE001
+        return f"property monitor could not be evaluated on the result: {type(e).__name__}: {str(e)[:200]}"
     return None
 
 
@@ -252,6 +432,8 @@ def _impl_pair_clips(inp):
 OPS = {
     "detection": Op("detection", _impl_detection, to_model=_to_model_detection, compare=_compare_detection,
                     holds=_holds_detection, nontrivial=_nontrivial, mode="round-once"),
+    "detection_geo": Op("detection_geo", _impl_detection, to_model=_to_model_geo, compare=_compare_geo,
+                        holds=_holds_detection, nontrivial=_nontrivial, mode="tolerance"),
     "eval_clip": Op("eval_clip", _impl_eval_clip, to_model=_to_model_eval_clip, compare=_compare_eval_clip,
                     holds=_holds_eval_clip, mode="round-once"),
     "pair_clips": Op("pair_clips", _impl_pair_clips, compare=lambda inp, io, mo: None if io == {"val": mo} else
@@ -273,12 +455,64 @@ def gen_detection(rng):
 _BOXES = {"A": ["1", "1000", "2", "2000"],          # reference
           "B": ["3/2", "1000", "5/2", "2000"],      # overlaps A by half (IoU 1/3)
           "C": ["2", "1000", "3", "2000"],          # touches A (affinity 0)
-          "D": ["7", "1000", "8", "2000"]}          # far from A
+          "D": ["7", "1000", "8", "2000"],          # far from A
+          "E": ["5/2", "2500", "7/2", "3500"]}      # later *and* higher than A and C: disjoint along both axes
+
+
+def _diagonal(rng, box):
+    """a box of the same size that is disjoint from `box` in time and in frequency, close to it"""
+    s, l, e, h = (frac(x) for x in box)
+    w, hh = e - s, h - l
+    dt, df = rng.choice([Fraction(1, 2), Fraction(1), Fraction(1, 4)]), rng.choice([500, 1000, 250])
+    later = rng.random() < 0.5 or s - dt - w < 0
+    up = rng.random() < 0.5 or l - df - hh < 0
+    s2 = e + dt if later else s - dt - w
+    l2 = h + df if up else l - df - hh
+    return [rat(s2), rat(l2), rat(s2 + w), rat(l2 + hh)]
+
+
+def _retype(rng, box, kinds):
+    """another geometry type placed on the box's grid points"""
+    s, l, e, h = box
+    k = rng.choice(kinds)
+    if k == "TimeInterval":
+        return {"type": "TimeInterval", "coordinates": [s, e]}
+    if k == "TimeStamp":
+        return {"type": "TimeStamp", "coordinates": rng.choice([s, e, rat((frac(s) + frac(e)) / 2)])}
+    if k == "Point":
+        return {"type": "Point", "coordinates": [rng.choice([s, e]), rng.choice([l, h])]}
+    if k == "LineString":
+        return {"type": "LineString", "coordinates": [[s, l], [e, h]]}
+    return {"type": "Polygon", "coordinates": [[[s, l], [e, l], [s, h], [s, l]]]}
+
+
+def gen_geo(rng):
+    """detection inputs over all the geometry types `evaluate_clip` can meet, with boxes that are disjoint
+    along both axes placed next to annotated ones"""
+    inp = G.gen_detection(rng, n_clips=rng.choice([1, 1, 2, 3]), vocab=G.gen_vocab(rng, 1, 5))
+    ann_by = {c["clip"]: c for c in inp["annotations"]}
+    for c in inp["annotations"]:
+        for e in c["events"]:
+            if e["geom"] is not None and rng.random() < 0.25:
+                e["geom"] = _retype(rng, e["geom"], ["TimeInterval", "TimeInterval", "TimeStamp", "Polygon", "Point"])
+    for c in inp["predictions"]:
+        a = ann_by.get(c["clip"])
+        boxes = [e["geom"] for e in a["events"] if isinstance(e["geom"], list)] if a else []
+        for e in c["events"]:
+            if e["geom"] is None:
+                continue
+            r = rng.random()
+            if r < 0.2 and boxes:
+                e["geom"] = _diagonal(rng, rng.choice(boxes))
+            elif r < 0.5:
+                e["geom"] = _retype(rng, e["geom"], ["TimeInterval", "TimeInterval", "TimeStamp", "TimeStamp", "Point",
+                                                     "Polygon", "LineString"])
+    return inp
 
 
 def _exhaustive_clips():
     """0-2 predicted x 0-2 annotated events, geometry absent / A / B / C / D, fixed tags"""
-    geoms = [None, "A", "B", "D"]
+    geoms = [None, "A", "B", "D", "E"]
     ptags = [[[0, "3/4"], [1, "1/8"]], [[1, "1/2"]]]
     atags = [[0], [2]]
     for npred in range(3):
@@ -311,7 +545,7 @@ def _pair_cases(rng, n):
 def _f_no_labelled_truth(f, m):
     if f.kind != "property" or not isinstance(f.impl, dict) or f.impl.get("raise") != "invalid":
         return False
-    if f.op == "detection":
+    if f.op in ("detection", "detection_geo"):      # the two operations that run sound_event_detection end to end
         return all_unlabelled(f.inp)
     return False
 
@@ -338,18 +572,225 @@ def _stage_clips(ctx, n):
     ctx.run_cases(OPS["eval_clip"], [gen_clip(ctx.rng) for _ in range(n)])
 
 
+def _stage_geo(ctx, n):
+    cases = [gen_geo(ctx.rng) for _ in range(n)]
+    for c in cases:
+        for side in ("predictions", "annotations"):
+            for pc in c[side]:
+                for e in pc["events"]:
+                    ctx.tally("geo:" + side[:4] + "=" + ("none" if e["geom"] is None else _gtype(e["geom"])))
+    # the box-only generator as well: the matcher inside the model must agree with the first layer
+    cases += [gen_detection(ctx.rng) for _ in range(n // 3)]
+    ctx.run_cases(OPS["detection_geo"], cases)
+
+
+# ---------------------------------------------------------------- tie 1: the matcher's buffers
+def _tables(ctx):
+    try:
+        tb, fb = matcher_buffers()
+    except Exception as e:  # noqa: BLE001
+        ctx.pre_failed.append("matcher_buffers")
+        ctx.fail("obligation", "matcher_buffers", detail=f"the matcher's default buffers cannot be read: {e!r}",
+                 extra={"op": "detection_geo"})
+        return
+    # hypotheses `tb_nonneg`, `fb_nonneg` of `GeoInputs` for the constants the code matches with
+    ctx.obligation("matcher_buffers",
+                   f"example : (0 : Rat) ≤ {st.lit(Fraction(tb))} ∧ (0 : Rat) ≤ {st.lit(Fraction(fb))} := by decide +kernel\n",
+                   {"op": "detection_geo", "extracted": {"time_buffer": tb, "freq_buffer": fb}})
+
+
+# ---------------------------------------------------------------- tie 1b: symbolic traces
+class _GeomStub:
+    """a geometry stand-in: `.type` and `.coordinates` only"""
+
+    def __init__(self, type, coordinates):
+        self.type = type
+        self.coordinates = coordinates
+
+
+class _AreaOnly:
+    def __init__(self, area):
+        self.area = area
+
+
+def _smax(a, b):
+    """`max a b` as one symbolic term (no path split: the stub is not the code under trace)"""
+    a, b = Sym.lift(a), Sym.lift(b)
+    return Sym(f"(max {a.e} {b.e})", lambda env, a=a, b=b: max(a.f(env), b.f(env)))
+
+
+def _smin(a, b):
+    a, b = Sym.lift(a), Sym.lift(b)
+    return Sym(f"(min {a.e} {b.e})", lambda env, a=a, b=b: min(a.f(env), b.f(env)))
+
+
+def _sym_extremum(builtin, sym2):
+    """`max` / `min` for a module under trace: one symbolic term when a symbolic number takes part (so that a
+    closed-form rewrite of the code does not explode into paths), the builtin otherwise"""
+    def f(*args, **kw):
+        xs = list(args[0]) if len(args) == 1 and not kw else list(args)
+        if kw or not xs or not any(isinstance(x, Sym) for x in xs):
+            return builtin(*args, **kw)
+        out = xs[0]
+        for x in xs[1:]:
+            out = sym2(out, x)
+        return out
+    return f
+
+
+class _patched:
+    """temporarily set module attributes (restored / removed afterwards)"""
+
+    def __init__(self, mod, **attrs):
+        self.mod, self.attrs, self.saved = mod, attrs, {}
+
+    def __enter__(self):
+        for k, v in self.attrs.items():
+            self.saved[k] = self.mod.__dict__.get(k, _patched)
+            setattr(self.mod, k, v)
+
+    def __exit__(self, *exc):
+        for k, v in self.saved.items():
+            if v is _patched:
+                delattr(self.mod, k)
+            else:
+                setattr(self.mod, k, v)
+
+
+class _RectStub:
+    """what GEOS computes for axis-parallel rectangles (contract `BoxExact`), on symbolic coordinates"""
+
+    def __init__(self, c):
+        self.c = tuple(c)
+        self.bounds = self.c
+
+    @property
+    def area(self):
+        s, l, e, h = self.c
+        return (e - s) * (h - l)
+
+    def intersection(self, o):
+        s1, l1, e1, h1 = self.c
+        s2, l2, e2, h2 = o.c
+        return _AreaOnly(_smax(0, _smin(e1, e2) - _smax(s1, s2)) * _smax(0, _smin(h1, h2) - _smax(l1, l2)))
+
+
+class _Row:
+    """an encoded score row on symbolic scores"""
+
+    def __init__(self, xs):
+        self.xs = list(xs)
+        self.shape = (len(self.xs),)
+
+    def sum(self, *a, **kw):
+        t = 0
+        for x in self.xs:
+            t = t + x
+        return t
+
+    def __getitem__(self, k):
+        return self.xs[k]
+
+    def __len__(self):
+        return len(self.xs)
+
+    def __iter__(self):
+        return iter(self.xs)
+
+
+class _Rec:
+    def __init__(self, **kw):
+        self.__dict__.update(kw)
+
+
+def _symbolic_ties(ctx):
+    import importlib
+    A = importlib.import_module("soundevent.evaluation.affinity")
+    D = importlib.import_module("soundevent.evaluation.tasks.sound_event_detection")
+    from soundevent import data as real_data
+
+    # (a) compute_affinity on two bounding boxes, for all coordinates: the closed form the model judges with
+    BV = ["s1", "l1", "e1", "h1", "s2", "l2", "e2", "h2"]
+    sy = {n: Sym.var(n) for n in BV}
+
+    smax, smin = _sym_extremum(max, _smax), _sym_extremum(min, _smin)
+
+    def run_boxes():
+        with _patched(A, geometry_to_shapely=lambda g: _RectStub(g.coordinates),
+                      compute_bounds=lambda g: tuple(g.coordinates), max=smax, min=smin):
+            return A.compute_affinity(_GeomStub("BoundingBox", [sy[n] for n in BV[:4]]),
+                                      _GeomStub("BoundingBox", [sy[n] for n in BV[4:]]))
+    ctx.sym_tie("ext_box_affinity", run_boxes, BV, "Rat",
+                "some (SE.Affinity.iouC (SE.Affinity.boxArea s1 l1 e1 h1) (SE.Affinity.boxArea s2 l2 e2 h2) "
+                "(SE.Affinity.boxInter s1 l1 e1 h1 s2 l2 e2 h2))",
+                tactic="unfold ext_box_affinity SE.Affinity.iouC SE.Affinity.boxArea SE.Affinity.boxInter\n  se_close",
+                meta={"op": "detection_geo"}, catch=(ValueError,))
+
+    # (b) the time branch
+    def run_time():
+        with _patched(A, compute_bounds=lambda g: tuple(g.coordinates), max=smax, min=smin):
+            return A.compute_affinity_in_time(_GeomStub("TimeInterval", [sy[n] for n in BV[:4]]),
+                                              _GeomStub("TimeInterval", [sy[n] for n in BV[4:]]))
+    # (compute_affinity_in_time and evaluate_sound_event are helpers outside `__all__`: when one is renamed or
+    # inlined there is nothing to trace — noted, not an alarm; the differential runs still cover the behaviour)
+    if callable(getattr(A, "compute_affinity_in_time", None)):
+        ctx.sym_tie("ext_time_affinity", run_time, BV, "Rat", "some (SE.Affinity.timeIoU s1 e1 s2 e2)",
+                    tactic="unfold ext_time_affinity SE.Affinity.timeIoU\n  se_close", meta={"op": "detection_geo"})
+    else:
+        ctx.note("symbolic tie ext_time_affinity skipped: affinity.compute_affinity_in_time no longer exists")
+    if not callable(getattr(D, "evaluate_sound_event", None)):
+        ctx.note("symbolic ties ext_pair_score_* skipped: sound_event_detection.evaluate_sound_event no longer exists")
+        return
+
+    # (c) evaluate_sound_event: score and affinity of a pair, for every true class of a three-tag vocabulary
+    RV = ["r0", "r1", "r2", "a"]
+    ry = {n: Sym.var(n) for n in RV}
+
+    class _DataStub:
+        Match = _Rec
+        Feature = _Rec
+
+        def __getattr__(self, k):
+            return getattr(real_data, k)
+
+    for k in (None, 0, 1, 2):
+        def run_score(k=k):
+            saved = (D.data, D.classification_encoding, D.prediction_encoding)
+            D.data = _DataStub()
+            D.classification_encoding = lambda tags, encoder: k
+            D.prediction_encoding = lambda tags, encoder: _Row([ry["r0"], ry["r1"], ry["r2"]])
+            try:
+                _y, _row, m = D.evaluate_sound_event(sound_event_prediction=_Rec(tags=[]),
+                                                     sound_event_annotation=_Rec(tags=[]), encoder=None,
+                                                     affinity=ry["a"])
+                return (m.score, m.affinity)
+            finally:
+                D.data, D.classification_encoding, D.prediction_encoding = saved
+        name = "ext_pair_score_" + ("none" if k is None else str(k))
+        y = "none" if k is None else f"(some {k})"
+        ctx.sym_tie(name, run_score, RV, "Rat × Rat", f"some (SE.Metrics.tcp ⟨{y}, [r0, r1, r2]⟩, a)",
+                    tactic=(f"unfold {name}\n  simp only [SE.Metrics.tcp, SE.Metrics.noneScore, List.getD, List.getElem?_cons_zero, "
+                            "List.getElem?_cons_succ, Option.getD_some, List.sum_cons, List.sum_nil]\n  try grind"),
+                    meta={"op": "detection"}, catch=(ValueError,))
+
+
 def _stage_pairing(ctx, n):
     ctx.run_cases(OPS["pair_clips"], list(_pair_cases(ctx.rng, n)))
     ctx.exhaustive["pair_clips"] = "all pairs of duplicate-free id lists over {0,1,2} (16 x 16 orders)"
 
 
 def run(ctx):
+    ctx.stage("tables", _tables, ctx)
+    ctx.stage("symbolic-ties", _symbolic_ties, ctx)
+    ctx.stage("discharge", ctx.discharge, ["Proofs.C08", "SoundeventModel.Tactics"])
     ctx.stage("corpus", ctx.run_corpus, OPS)
     ctx.stage("detection", _stage_detection, ctx, ctx.budget(1200, 12000))
+    ctx.stage("detection-geo", _stage_geo, ctx, ctx.budget(900, 9000))
     ctx.stage("evaluate_clip", _stage_clips, ctx, ctx.budget(1000, 12000))
     ctx.stage("pairing", _stage_pairing, ctx, ctx.budget(200, 3000))
 
 
 def search(ctx, failures):
+    ctx.run_cases(OPS["detection_geo"], [gen_geo(ctx.rng) for _ in range(300)])
     ctx.run_cases(OPS["detection"], [gen_detection(ctx.rng) for _ in range(300)])
     ctx.run_cases(OPS["eval_clip"], list(_exhaustive_clips()))
